@@ -122,3 +122,34 @@ Definition ex_second_drain : trace := ex_prefix ++ [
   ev 40 (AGo 1) (KDrainBegin 0 THealthy 100);
   ev 41 (AGo 2) (KStateSet 0 TDraining TDraining);
   ev 41 (AGo 2) (KDrainBegin 0 TDraining 100)].
+
+(** upgraded connection (request 1: target answered 101, connection taken over) and a plain
+    hanging request 3 on t1 "b"; Drain of t1 with timeout 3 s: request 1 is cut at the
+    snapshot, request 3 at the deadline *)
+Definition ex_upgrade_pre : trace := deploy0 ++
+  req_hang_on 1 1 20 ++ [
+  ev 21 (AReq 1) (KTargetReplied 1 1 101);
+  ev 21 (AReq 1) (KHijacked 1)] ++
+  req_hang_on 2 0 22 ++ req_hang_on 3 1 23 ++ [
+  ev 40 (AGo 1) (KStateSet 1 THealthy TDraining);
+  ev 40 (AGo 1) (KDrainBegin 1 THealthy 3000000000)].
+Definition ex_upgrade_snap : event := ev 40 (AGo 1) (KDrainSnapshot 1 [(1%nat, true); (3%nat, false)]).
+Definition ex_upgrade_mid : trace := [
+  ev 41 (AReq 1) (KEnd 1 1);
+  ev 41 (AReq 1) (KRespond 1 101 (bs "b"));
+  ev 3000000040 (AGo 1) (KDrainDeadline 1)].
+Definition ex_upgrade_rest : event := ev 3000000040 (AGo 1) (KDrainCancelRest 1).
+Definition ex_upgrade_post : trace := [
+  ev 3000000040 (AReq 3) (KTargetFailed 1 3 1);
+  ev 3000000040 (AReq 3) (KEnd 1 3);
+  ev 3000000040 (AReq 3) (KRespond 3 504 (bs "b"));
+  ev 3000000040 (AGo 1) (KStateSet 1 TDraining THealthy)].
+Definition ex_upgrade : trace :=
+  ex_upgrade_pre ++ ex_upgrade_snap :: ex_upgrade_mid ++ ex_upgrade_rest :: ex_upgrade_post.
+
+(** a snapshot with a duplicate entry misses the upgraded request 3 *)
+Definition ex_dup_up_pre : trace := deploy0 ++ req_hang_on 1 1 20 ++ req_hang_on 2 0 21 ++ req_hang_on 3 1 22 ++ [
+  ev 23 (AReq 3) (KTargetReplied 1 3 101);
+  ev 23 (AReq 3) (KHijacked 3);
+  ev 40 (AGo 1) (KStateSet 1 THealthy TDraining);
+  ev 40 (AGo 1) (KDrainBegin 1 THealthy 100)].
